@@ -323,6 +323,47 @@ par%(u)s(n: SI): SI == {
     return d, [], "par%s(%d)" % (u, max(2, min(n, 4000)))
 
 
+def b_strops(u, rng, n):
+    """String primitives of the runtime: copy, substring, concat, map."""
+    d = '''
+sto%(u)s(n: SI): SI == {
+	import from List String, Character;
+	l: List String := nil;
+	s: String := "abcdefghij";
+	for i: SI in 1..n repeat {
+		t: String := copy s;
+		u: String := substring(t, 1 + i rem 5, 3);
+		s := concat(u, t);
+		if #s > %(lim)d then s := substring(s, 1, 10);
+		l := cons(map((c: Character): Character +-> c, u), l);
+	}
+	k: SI := 0;
+	for x in l repeat k := (k + #x) rem %(M)d;
+	k + #s
+}
+''' % dict(u=u, lim=rng.choice([30, 60, 250, 1000, 5000]), M=M)
+    return d, [], "sto%s(%d)" % (u, max(2, min(n, 2000)))
+
+
+def b_arrgrow(u, rng, n):
+    """Arrays grown element by element (the runtime re-allocates), generators into arrays,
+    destructive list operations."""
+    d = '''
+agr%(u)s(n: SI): SI == {
+	a: Array SI := empty();
+	for i: SI in 1..n repeat extend!(a, i * %(k)d);
+	b: Array SI := array(x + 1 for x in a);
+	l: List SI := [x for x in b];
+	l := reverse! copy l;
+	l := concat!(l, [1, 2, 3]);
+	s: SI := 0;
+	for x in l repeat s := (s + x) rem %(M)d;
+	s + #a
+}
+''' % dict(u=u, k=rng.range(2, 9), M=M)
+    return d, [], "agr%s(%d)" % (u, max(2, min(n, 3000)))
+
+
 def b_dyndom(u, rng, n):
     """Domains created at run time (List T for growing T): the runtime's lazy domain
     objects and its caches allocate and are kept alive across collections."""
@@ -419,6 +460,7 @@ BLOCKS = [("list", b_list, 4), ("record", b_record, 4), ("node", b_node, 2), ("c
           ("array", b_array, 3), ("domain", b_domain, 1),
           ("exn", b_exn, 2), ("union", b_union, 2), ("float", b_float, 1), ("tokens", b_tokens, 1),
           ("deeprec", b_deeprec, 2), ("ptrarray", b_ptrarray, 2), ("dyndom", b_dyndom, 2),
+          ("strops", b_strops, 2), ("arrgrow", b_arrgrow, 2),
           ("frag", b_frag, 0), ("chain", b_chain, 0)]	# weight 0: only when forced (expensive)
 
 
